@@ -35,3 +35,8 @@ brk_sc("c33-broker-verifier-built-without-keys",
 brk_sc("c33-broker-verifier-bound-to-other-identity",
        '"pub-{}".format(str(server_id, "ascii")).encode("ascii"),',
        '"pub-{}".format(str(server_id, "ascii"))[:-1].encode("ascii") + b"a",')
+brk_sc("c33-broker-reannouncement-ignored-when-only-certificates-differ",
+       "            return old.get_announcement() == ann\n",
+       "            return ({k: v for k, v in old.get_announcement().items() if k != \"grid-manager-certificates\"}\n"
+       "                    == {k: v for k, v in ann.items() if k != \"grid-manager-certificates\"})\n",
+       note="a re-announcement that only changes the certificate list is treated as a duplicate: permission keeps following the first one")
